@@ -263,6 +263,19 @@ func checkCDXOutput(doc *sbom.Document, out []byte, f formats.Format) error {
 	if o.norefs > 0 {
 		return fmt.Errorf("%d components were emitted without bom-ref", o.norefs)
 	}
+	// containment statements in the other direction (`contained_by` from the node): a tree can hold one parent per
+	// component, so nesting a node under any of its stated containers expresses its containment
+	containedBy := map[string]map[string]bool{}
+	for _, e := range nl.Edges {
+		if e.Type == sbom.Edge_contained_by {
+			for _, to := range e.To {
+				if containedBy[e.From] == nil {
+					containedBy[e.From] = map[string]bool{}
+				}
+				containedBy[e.From][to] = true
+			}
+		}
+	}
 	onCycle := nodesOnOrBelowCycle(containers)
 	for c, ps := range containers {
 		if c == root || onCycle[c] {
@@ -276,23 +289,15 @@ func checkCDXOutput(doc *sbom.Document, out []byte, f formats.Format) error {
 				}
 			}
 		}
+		for _, got := range o.parents[c] {
+			ok = ok || containedBy[c][got]
+		}
 		if !ok {
 			return fmt.Errorf("containment of %q is not expressed: contained by %v, emitted under %v", c, hx.SortedKeys(ps), o.parents[c])
 		}
 	}
 	// no invented containment: a node nested under a component is related to it by a containment statement of the
 	// document (in either direction: `contains` from the container or `contained_by` from the node)
-	containedBy := map[string]map[string]bool{}
-	for _, e := range nl.Edges {
-		if e.Type == sbom.Edge_contained_by {
-			for _, to := range e.To {
-				if containedBy[e.From] == nil {
-					containedBy[e.From] = map[string]bool{}
-				}
-				containedBy[e.From][to] = true
-			}
-		}
-	}
 	for _, n := range nl.Nodes {
 		if n.Id == root || len(containers[n.Id]) > 0 {
 			continue
